@@ -79,7 +79,15 @@ def histories(rng, table, vg, n):
                 slot, c, v = rng.choice(live)
                 pc = table[c]
                 idx = [i for i, fd in enumerate(pc['fields']) if fd['body'][0] == 'elem' and fd['body'][1][0] == 'leaf' and fd['body'][1][1][0] == 'int']
-                if idx:
+                bidx = [i for i, fd in enumerate(pc['fields']) if fd['body'][0] == 'bits']
+                if bidx and rng.random() < 0.35:
+                    # a bit field may be assigned a value wider than its width (it is reduced when serialized, never in the packet)
+                    i = rng.choice(bidx)
+                    w = pc['fields'][i]['body'][1]
+                    h.append(['set', slot, [f"f{i}"], rng.choice([0, 1, 2 ** w, 2 ** w + 3, 2 ** (w + 1) - 1])])
+                    VALUES[id(h[-1])] = h[-1][3]
+                    h.append(['pack', slot])
+                elif idx:
                     i = rng.choice(idx)
                     h.append(['set', slot, [f"f{i}"], rng.randrange(0, 3)])
                     VALUES[id(h[-1])] = h[-1][3]
